@@ -120,6 +120,70 @@ theorem storeComplex_componentwise (f : Fmt) (r : Rounding) (o : Overflow) (z : 
 theorem storeArray_pointwise (f : Fmt) (r : Rounding) (o : Overflow) (vs : List ℚ) :
     storeArray f r o vs = vs.map (quantize f r o) := rfl
 
+/-! ### slivers: a scaled value that underflows the double range (D40)
+
+With a negative fraction length the scaling `v·2^n_frac` of a subnormal double is smaller than any double.  What the rounding
+rules make of such a sliver depends on its sign only — which is why the repair may replace the lost product by *any* tiny number
+of the same sign (`Fxp._scale`), and why replacing it by `0` (the pinned behaviour) was wrong for `floor` and `ceil`. -/
+
+theorem floor_of_sliver {x : ℚ} (h0 : 0 < x) (h1 : x < 1) : ⌊x⌋ = 0 := by
+  rw [Int.floor_eq_iff]; constructor <;> simp <;> linarith
+
+theorem ceil_of_sliver {x : ℚ} (h0 : 0 < x) (h1 : x < 1) : ⌈x⌉ = 1 := by
+  rw [Int.ceil_eq_iff]; constructor <;> simp <;> linarith
+
+theorem floor_of_neg_sliver {x : ℚ} (h0 : x < 0) (h1 : -1 < x) : ⌊x⌋ = -1 := by
+  rw [Int.floor_eq_iff]; constructor <;> simp <;> linarith
+
+theorem ceil_of_neg_sliver {x : ℚ} (h0 : x < 0) (h1 : -1 < x) : ⌈x⌉ = 0 := by
+  rw [Int.ceil_eq_iff]; constructor <;> simp <;> linarith
+
+/-- what each rule stores for a positive sliver (`0 < x < 1/2`): `ceil` goes up to 1, every other rule to 0. -/
+theorem roundR_pos_sliver (r : Rounding) {x : ℚ} (h0 : 0 < x) (h1 : x < 1/2) :
+    roundR r x = if r = .ceil then 1 else 0 := by
+  have hx1 : x < 1 := by linarith
+  have hf := floor_of_sliver h0 hx1
+  have hc := ceil_of_sliver h0 hx1
+  cases r
+  · rw [roundR_trunc, if_neg (by linarith), hf]; simp
+  · rw [roundR_fix, roundR_trunc, if_neg (by linarith), hf]; simp
+  · rw [roundR_floor, hf]; simp
+  · rw [roundR_ceil, hc]; simp
+  · show roundHalfEven x = _
+    rw [roundHalfEven_of_lt x (by rw [hf]; simpa using h1), hf]; simp
+
+/-- … and for a negative one (`-1/2 < x < 0`): `floor` goes down to −1, every other rule to 0. -/
+theorem roundR_neg_sliver (r : Rounding) {x : ℚ} (h0 : x < 0) (h1 : -1/2 < x) :
+    roundR r x = if r = .floor then -1 else 0 := by
+  have hx1 : -1 < x := by linarith
+  have hf := floor_of_neg_sliver h0 hx1
+  have hc := ceil_of_neg_sliver h0 hx1
+  cases r
+  · rw [roundR_trunc, if_pos h0, hc]; simp
+  · rw [roundR_fix, roundR_trunc, if_pos h0, hc]; simp
+  · rw [roundR_floor, hf]; simp
+  · rw [roundR_ceil, hc]; simp
+  · show roundHalfEven x = _
+    have : 1/2 < x - ((⌊x⌋ : ℤ) : ℚ) := by rw [hf]; push_cast; linarith
+    rw [roundHalfEven_of_gt x this, hf]; simp
+
+/-- **the rounded value of a sliver depends on its sign only**: any two slivers of the same sign are stored alike. -/
+theorem roundR_sliver_indep (r : Rounding) {x y : ℚ} (hx : 0 < x ∧ x < 1/2 ∨ x < 0 ∧ -1/2 < x)
+    (hy : 0 < y ∧ y < 1/2 ∨ y < 0 ∧ -1/2 < y) (hs : 0 < x ↔ 0 < y) : roundR r x = roundR r y := by
+  rcases hx with ⟨a, b⟩ | ⟨a, b⟩ <;> rcases hy with ⟨c, d⟩ | ⟨c, d⟩
+  · rw [roundR_pos_sliver r a b, roundR_pos_sliver r c d]
+  · exact absurd (hs.mp a) (by linarith)
+  · exact absurd (hs.mpr c) (by linarith)
+  · rw [roundR_neg_sliver r a b, roundR_neg_sliver r c d]
+
+/-- the pinned behaviour (the product underflowed to 0) differs from the Spec exactly for `ceil` of a positive and `floor` of a negative sliver. -/
+theorem zero_is_wrong_for_sliver : roundR .ceil (1/1000 : ℚ) ≠ roundR .ceil 0 ∧ roundR .floor (-1/1000 : ℚ) ≠ roundR .floor 0 := by
+  have hc : roundR .ceil (0:ℚ) = 0 := by simpa using roundR_int .ceil 0
+  have hf : roundR .floor (0:ℚ) = 0 := by simpa using roundR_int .floor 0
+  constructor
+  · rw [roundR_pos_sliver .ceil (by norm_num) (by norm_num), hc]; decide
+  · rw [roundR_neg_sliver .floor (by norm_num) (by norm_num), hf]; decide
+
 /-! ### non-vacuity -/
 example : quantize ⟨true, 8, 2⟩ .around .saturate (27/8) = 14 := by decide +kernel
 example : quantize ⟨true, 8, 2⟩ .around .saturate (29/8) = 14 := by decide +kernel   -- tie to even
